@@ -12,9 +12,10 @@ a lambda; `"$ref": "#/$defs/X"` is `schema_def fuel .X x` (inside `schema_def (f
 unit, which is what makes the recursion structural — `Condition` refers to itself).  Boolean schemas are `true` / `false`.
 
 CANONICAL FORM (JSON object member order has no meaning in JSON Schema, so none is kept): the keywords of an object are emitted in the fixed
-order of `ORDER` below, the members of `properties` sorted by key, the lists `required` / `enum` as written, `oneOf`/`anyOf`/`allOf`/`prefixItems`
-branches in their (meaningful or not) list order.  Reordering the members of any object of the schema file therefore leaves the rendering — and
-the per-run obligation `Run/C06_schema.lean` stated on it — unchanged.
+order of `ORDER` below, the members of `properties` sorted by key, the lists `required` / `enum` sorted, the branches of `oneOf` / `anyOf` /
+`allOf` (exactly one / some / all of them: the order has no meaning) sorted by their own rendering, `prefixItems` in list order (positional).
+Reordering the members of any object or any of these lists of the schema file therefore leaves the rendering — and the per-run obligation
+`Run/C06_schema.lean` stated on it — unchanged.
 
 IGNORED keywords (annotations; `jsonschema` ignores them too): `$schema`, `title`, `description`, and `$defs` where it is read as the table
 of definitions (root only).
@@ -98,7 +99,7 @@ class _Tr:
             elif kw == "enum":
                 if not isinstance(val, list) or not all(isinstance(e, str) for e in val):
                     raise Unsupported(f"{w}: only lists of strings")
-                parts.append(f"JS.enumStr {x} [{', '.join(_s(e) for e in val)}]")
+                parts.append(f"JS.enumStr {x} [{', '.join(_s(e) for e in sorted(val))}]")
             elif kw in ("minLength", "minItems", "maxItems", "minProperties", "maxProperties"):
                 parts.append(f"JS.{kw} {x} {_nat(w, val)}")
             elif kw == "prefixItems":
@@ -112,7 +113,7 @@ class _Tr:
             elif kw == "required":
                 if not isinstance(val, list) or not all(isinstance(e, str) for e in val):
                     raise Unsupported(f"{w}: a list of strings")
-                parts.append(f"JS.required {x} [{', '.join(_s(e) for e in val)}]")
+                parts.append(f"JS.required {x} [{', '.join(_s(e) for e in sorted(val))}]")
             elif kw == "additionalProperties":
                 if "patternProperties" in schema:
                     raise Unsupported(f"{w}: next to patternProperties")
@@ -136,7 +137,9 @@ class _Tr:
             elif kw in ("oneOf", "anyOf", "allOf"):
                 if not isinstance(val, list) or not val:
                     raise Unsupported(f"{w}: a non-empty list of schemas")
-                parts.append(f"JS.{kw} [{', '.join(self.term(s, x, f'{w}/{i}') for i, s in enumerate(val))}]")
+                # exactly-one / some / all of: the order has no meaning — sorted by each branch's own rendering (annotations do not count)
+                branches = sorted(val, key=lambda b: _Tr(self.defs, self.ref_call).term(b, "v", w))
+                parts.append(f"JS.{kw} [{', '.join(self.term(s, x, f'{w}/{i}') for i, s in enumerate(branches))}]")
             elif kw == "not":
                 parts.append(f"!{self.term(val, x, w)}")
             elif kw == "properties":
